@@ -45,8 +45,11 @@ def evaluate(diff: Path, run_tests: bool, props):
         sid = diff.parent.name
         demo = diff.parent / "demo.py"
     else:
-        rnd = "r2-" if diff.parent.name.startswith(("seed2-", "seed3-")) else ""
-        sid = f"{diff.parent.name.replace('seed3-', '').replace('seed2-', '').replace('seed-', '')}-{rnd}{diff.stem.replace('change', '').replace('refactor', 'r')}"
+        rnd = "r2-" if diff.parent.name.startswith(("seed2-", "seed3-")) else ("r3-" if diff.parent.name.startswith("seed4-") else ("r4-" if diff.parent.name.startswith("seed5-") else ""))
+        base = diff.parent.name
+        for pre in ("seed5-", "seed4-", "seed3-", "seed2-", "seed-"):
+            base = base.replace(pre, "")
+        sid = f"{base}-{rnd}{diff.stem.replace('change', '').replace('refactor', 'r')}"
         demo = diff.parent / diff.name.replace("change", "demo").replace(".diff", ".py")
     tmp = Path(tempfile.mkdtemp(prefix="usa-seed-"))
     res = {"id": sid, "diff": str(diff), "demo": str(demo)}
